@@ -12,7 +12,9 @@ RULE = ("schedules = a cluster (n in 3..6, one faulty member at any position) fo
         "linearisation) and FSend(f sends receiver r a BCastMessage with an explicit signature list); generated "
         "(a) by TLC simulation of BcastDKGGen and (b) by a seeded scenario generator (complete own broadcast, "
         "equivocation (also through CONCURRENT requests for one dedup slot, overlap forced by a gate inside the signing "
-        "step), relay of a foreign completely signed payload, cross-session / cross-id replay, permuted / "
+        "step), REPLAY of a signature set a member has ACCEPTED (a valid message first, then the byte-identical list with "
+        "another payload / id / session, at the same and at another member, before and after a rejected message, and "
+        "unchanged), relay of a foreign completely signed payload, cross-session / cross-id replay, permuted / "
         "truncated / extended / substituted lists, unknown id, payload of the wrong type, repeated and conflicting honest "
         "broadcasts, lost sends); executed on real bcast.New components (real secp256k1 keys; honest broadcasts run the "
         "unmodified client over a synchronous in-process transport, the faulty member calls the stream handlers directly); "
@@ -124,7 +126,7 @@ def scenario(r, big):
     steps = [{"ev": "Cfg", "n": n, "faulty": [f]}]
     kind = r.choice(["full", "equiv", "equiv", "relay", "relay", "relay_slot", "xsess", "xid", "lists", "lists", "unknown", "framing",
                      "junk", "honest_twice", "lossy", "freply", "toself", "mix", "mix", "nofaulty", "slots",
-                     "conc", "conc", "conc"])
+                     "conc", "conc", "conc", "replay", "replay", "replay"])
 
     def collect(pl, members, ss=s, ii=i):
         ms = list(members)
@@ -272,6 +274,8 @@ def scenario(r, big):
         steps += send_all(pf) + send_all(pf2)
         if r.random() < 0.5:
             steps += collect(pf2, hon) + send_all(pf2, r.sample(hon, 1))
+    elif kind == "replay":
+        return steps + replay_steps(r, n, f, hon, s, s2, i, i2, r.choice(["own", "own", "honest", "twin"]), big)
     elif kind == "slots":
         # dedup is per requesting peer AND id AND component: the same payload / different payloads across them
         for _ in range(r.randint(4, 12)):
@@ -299,9 +303,82 @@ def scenario(r, big):
     return steps
 
 
+def replay_steps(r, n, f, hon, s, s2, i, i2, src, big=False):
+    """Replay of an ACCEPTED signature set.  A fully valid message (id i, X, the complete ordered list L over X) is first
+    accepted by member A -- f's own message (src "own" / "twin": X is one of the framing twins and the substituted payload
+    the other one), or the broadcast of honest h, whose list f receives like everybody else (src "honest").  Then L is sent
+    again, byte for byte (all signatures are deterministic), by f: to A with another payload (THE replay), under another id,
+    to A's component of the other session, to a member B (which has / has not accepted L itself), unchanged (own
+    messages only: an unchanged foreign one is the known finding's relay), and -- sometimes -- already BEFORE A accepted it
+    (replay after a rejected message).  Nobody ever signed anything but X, so the rule refuses every one of them except
+    the unchanged duplicate, whatever A has accepted before."""
+    bodies = ["x", "y", "z"]
+    steps = []
+    if src == "honest":
+        h = r.choice(hon)
+        X = P(h, r.choice(bodies))
+        A = r.choice([x for x in hon if x != h])
+    else:
+        h = None
+        X = P(f, r.choice(bodies)) if src == "own" else dict(P(f, ""), enc="p1")
+        A = r.choice(hon)
+    if src == "twin":
+        X, tw = (X, dict(P(f, "tw2"), enc="p2")) if r.random() < 0.5 else (dict(P(f, "tw2"), enc="p2"), X)
+    L = exact(n, s, i, X)
+    B = r.choice([x for x in hon if x != A])
+    ob = [b for b in bodies if b != X["body"]]
+    Ys = [P(f, r.choice(ob)), P(X["origin"], r.choice(ob)), P(A, r.choice(bodies)), P(r.choice(hon), "q"), P(f, "j", False)]
+    Ys = [y for y in Ys if y != X]
+    if src == "twin":
+        Ys = [tw] + Ys
+    Y = Ys[0] if r.random() < 0.6 else r.choice(Ys)
+    early = r.random() < 0.4
+    if h is None:
+        ms = hon[:]
+        r.shuffle(ms)
+        steps += [fsig(f, m, s, i, X) for m in ms]
+        if early:                       # refused (twice: a memory filled before the verdict would let the second one in)
+            steps += [fsend(f, A, s, i, Y, L)] * r.randint(1, 2)
+        steps.append(fsend(f, A, s, i, X, L))                 # accepted by A
+    else:
+        steps.append(bcast(h, s, i, X))                       # accepted by every honest member but h; f receives L
+        if early:
+            steps.append(fsend(f, h, s, i, Y, L))             # h itself has not accepted anything
+    moves = [fsend(f, A, s, i, Y, L)]                         # same id, same list, other payload
+    pool = [fsend(f, A, s, i, r.choice(Ys), L), fsend(f, A, s, i2, X, L), fsend(f, A, s, i2, Y, L),
+            fsend(f, A, s, "zz", X, L), fsend(f, A, s2, i, X, L), fsend(f, A, s2, i, Y, L), fsend(f, B, s, i, Y, L),
+            fsend(f, B, s2, i2, r.choice(Ys), L), fsend(f, A, s, i, Y, L[:-1]), fsend(f, A, s, i, Y, L[::-1]),
+            fsend(f, A, s, i, Y, exact(n, s, i, Y))]
+    if h is None:
+        pool += [fsend(f, A, s, i, X, L)] * 2                 # the honest duplicate
+    moves += r.sample(pool, r.randint(2, 6 if not big else len(pool)))
+    r.shuffle(moves)
+    if r.random() < 0.5:
+        moves.insert(0, fsend(f, A, s, i, Y, L))              # ... directly after the acceptance
+    steps += moves
+    if h is None:
+        steps += [fsend(f, B, s, i, X, L), fsend(f, B, s, i, Y, L)]       # B accepts, then the replay at B
+        steps += [fsend(f, A, s, i, X, L)]                                # A still delivers the signed one
+        if r.random() < 0.5:            # a second payload under the id is not signed by anybody, its replay neither
+            steps += [fsig(f, m, s, i, Y) for m in r.sample(hon, r.randint(1, len(hon)))] + [fsend(f, A, s, i, Y, L)]
+    return steps
+
+
+def replay_probes():
+    """Deterministic instances of the replay (executed on every run, first in the batch, so that the coverage counters and
+    the binding self-test always have one): f's own accepted message, an honest member's accepted broadcast, the twins."""
+    out = []
+    for k, src in enumerate(["own", "honest", "twin", "own"]):
+        r = vlib.rng(0, "c13 replay probe %d" % k)
+        n, f = [(4, 2), (3, 3), (4, 1), (5, 4)][k]
+        hon = [m for m in range(1, n + 1) if m != f]
+        out.append([{"ev": "Cfg", "n": n, "faulty": [f]}] + replay_steps(r, n, f, hon, "s1", "s2", "a", "b", src))
+    return out
+
+
 def random_schedules(seed, num, big):
     r = vlib.rng(seed, "c13")
-    return [scenario(r, big) for _ in range(num)]
+    return replay_probes() + [scenario(r, big) for _ in range(num)]
 
 
 FINDING = "C13-relay-foreign-payload"
@@ -383,6 +460,25 @@ def mutators():
                 e["cb"]["pl"] = dict(e["cb"]["pl"], body=e["cb"]["pl"]["body"] + "'")
                 return t
         return None
+
+    def replay_delivered(t):
+        # THE replay recorded as a delivery: a refused message whose signature list is, byte for byte, one the same
+        # component accepted before with another payload ("verified signature sets are remembered without the payload")
+        acc = {}
+        for e in t:
+            if e.get("ev") != "Msg" or "sigset" not in e:
+                continue
+            k = (e["r"], e["sess"], e["id"], e["sigset"])
+            if e["invoked"]:
+                acc.setdefault(k, e["plset"])
+            elif k in acc and acc[k] != e["plset"] and e["pl"]["ok"]:
+                e["invoked"] = True
+                e["accepted"] = e["pl"]["origin"] == e["from"] and e["pl"]["origin"] != e["r"]
+                e["err"] = False
+                e["cb"] = {"from": e["from"], "id": e["id"], "pl": e["pl"]}
+                return t
+        return None
+
     def flip_sigret(t):
         for e in t:
             if e.get("ev") == "SigRet" and not e["ok"]:
@@ -396,7 +492,8 @@ def mutators():
                 del t[k]
                 return t
         return None
-    return [("concurrent refusal turned into a grant", flip_sigret), ("SigCall event dropped", drop_sigcall),
+    return [("replay of an accepted signature set with another payload recorded as delivered", replay_delivered),
+            ("concurrent refusal turned into a grant", flip_sigret), ("SigCall event dropped", drop_sigcall),
             ("Sig result flipped", flip_sig_ok), ("Msg invoked flipped", flip_invoked),
             ("Msg accepted flipped", flip_accepted), ("granting Sig event dropped", drop_granting_sig),
             ("honest signature of another session in a delivered list", forged_sig),
@@ -412,7 +509,11 @@ CONTROLS = [("BcastDKGMC_ctl_checkthenact.cfg", "DedupFunctional", "dedupHash sp
             ("BcastDKGMC_ctl_nosession.cfg", "AllSigned", "session hash not bound by newHashAny"),
             ("BcastDKGMC_ctl_noid.cfg", "AllSigned", "message id not bound by newHashAny"),
             ("BcastDKGMC_ctl_raw.cfg", "AgreementRaw", "deviation RelayForeignPayload not set aside (known finding %s)" % FINDING),
-            ("BcastDKGMC_ctl_collusion.cfg", "AgreementAccepted", "two colluding faulty members (outside the statement)")]
+            ("BcastDKGMC_ctl_collusion.cfg", "AgreementAccepted", "two colluding faulty members (outside the statement)"),
+            ("BcastDKGMC_ctl_sigcache.cfg", "AllSigned", "verified signature sets remembered per component under (id, signatures), "
+             "without the payload: an accepted set replayed with another payload is delivered"),
+            ("BcastDKGMC_ctl_sigcache_member.cfg", "AllSigned", "the same memory shared by a member's components: a set accepted "
+             "in one session is delivered in the other")]
 
 
 def run(tier, seed):
@@ -454,10 +555,36 @@ def run(tier, seed):
     # coverage of the corners in the recorded traces (vacuity guard: the attacks must really have been mounted)
     tr = vlib.split_traces(vlib.read_ndjson(vlib.workdir(PID) + "/trace_random.ndjson"))
     cov = {"faulty_delivered_accepted": 0, "faulty_delivered_rejected_by_callback": 0, "faulty_refused": 0,
-           "honest_delivered": 0, "sig_refused": 0, "sig_granted": 0, "concurrent_granted": 0, "concurrent_refused": 0}
+           "honest_delivered": 0, "sig_refused": 0, "sig_granted": 0, "concurrent_granted": 0, "concurrent_refused": 0,
+           "accepted_sigset_replayed_other_payload_same_member": 0, "accepted_sigset_replayed_other_id_or_session": 0,
+           "accepted_sigset_replayed_at_other_member": 0, "accepted_sigset_replayed_unchanged": 0,
+           "sigset_replayed_after_rejection": 0, "honest_broadcast_sigset_replayed_other_payload": 0}
     for t in tr:
         fl = t[0].get("faulty", [])
+        acc, rej = {}, set()        # signature-list bytes -> [(member, session, id, payload bytes, sender)] accepted so far
         for e in t:
+            if e.get("ev") == "Msg" and "sigset" in e:
+                here = (e["r"], e["sess"], e["id"], e["plset"])
+                prev = acc.get(e["sigset"], [])
+                if prev and e["from"] in fl:
+                    for (pr, ps, pi, pp, pfrom) in prev:
+                        if (pr, ps, pi) == here[:3] and pp != here[3]:
+                            cov["accepted_sigset_replayed_other_payload_same_member"] += 1
+                            if pfrom not in fl:
+                                cov["honest_broadcast_sigset_replayed_other_payload"] += 1
+                            break
+                    if any(pr == e["r"] and (ps, pi) != (e["sess"], e["id"]) for (pr, ps, pi, pp, _) in prev):
+                        cov["accepted_sigset_replayed_other_id_or_session"] += 1
+                    if all(pr != e["r"] for (pr, ps, pi, pp, _) in prev) and all(pp != here[3] for (pr, ps, pi, pp, _) in prev):
+                        cov["accepted_sigset_replayed_at_other_member"] += 1      # (with another payload)
+                    if any((pr, ps, pi, pp) == here for (pr, ps, pi, pp, _) in prev):
+                        cov["accepted_sigset_replayed_unchanged"] += 1
+                if (e["r"], e["sigset"]) in rej and e["from"] in fl:
+                    cov["sigset_replayed_after_rejection"] += 1
+                if e["invoked"]:
+                    acc.setdefault(e["sigset"], []).append(here + (e["from"],))
+                else:
+                    rej.add((e["r"], e["sigset"]))
             if e.get("ev") == "Msg":
                 if e["from"] in fl:
                     cov["faulty_delivered_accepted" if e["accepted"] else
